@@ -41,6 +41,7 @@ Definition enc_spc (p : spc) : list Z :=
   | SStart => [0; 0] | SCalled => [1; 0] | SLoop => [2; 0] | SAccepted c => [3; zn c] | SRejected c => [4; zn c]
   | SPassed c => [5; zn c] | STrack c => [6; zn c] | SReturned e => [7; enc_err e]
   | SDrop c r => [8; zn c; zb r] | SDropCb c r => [9; zn c; zb r] | SLeaving r => [10; zb r]
+  | SErrCb c n => [11; zn c; zn n]
   end.
 Definition enc_sdpc (p : sdpc) : list Z :=
   match p with
@@ -69,13 +70,14 @@ Definition enc_obs (o : obs) : list Z :=
   | OServeReturn e => [5; enc_err e] | ORead c r => [6; zn c; enc_rres r] | OHandlerStart c => [7; zn c]
   | OHandlerEnd c ok => [8; zn c; zb ok] | OWrite c ok => [9; zn c; zb ok] | OErrCb => [10]
   | OCloseCb c b => [11; zn c; zb b] | OSdCall => [12] | OSdReturn e => [13; enc_err e] | OCancel => [14]
+  | ODefLog => [17]
   end.
 Definition obs_eqb (a b : obs) : bool := zlist_eqb (enc_obs a) (enc_obs b).
 
 (* ---------- hidden steps ---------- *)
 Definition hidden_cands (k : cfg) (s : state) : list label :=
   [LServeCb; LPublish; LSdBegin; LSdPassEnd; LSdRetry; LAfterClose]
-  ++ flat_map (fun c => [LCtxPass c; LCtxDone c; LTrack c; LDropCb c; LConnCtxExit c; LHandleStart c; LProtoReply c; LHandleEnd c; LErrCb c;
+  ++ flat_map (fun c => [LCtxPass c; LCtxDone c; LTrack c; LDropCb c; LConnCtxExit c; LHandleStart c; LProtoReply c; LHandleEnd c;
                          LConnLeave c; LUntrack c; LCloseCb c; LSdCas c; LSdLoad c])
               (seq 0 (length (conns s))).
 
@@ -104,13 +106,13 @@ Definition obs_cands (n : nat) (o : obs) : list label :=
   | OServeCb => [LServeCb]
   | OAccept c => [LAccept c]
   | OAcceptCb c m ok => [LAcceptCb c m ok]
-  | OConnClose c => [LRejectClose c; LConnExit c; LSdClose c; LDropClose c]
+  | OConnClose c => [LRejectClose c; LConnExit c; LSdClose c; LDropClose c; LRejectCloseErr c; LDropCloseErr c; LConnExitErr c]
   | OServeReturn e => [LServeReturn e]
   | ORead c r => [LConnRead c r]
   | OHandlerStart c => [LHandlerStart c]
   | OHandlerEnd c ok => [LHandlerEnd c ok]
   | OWrite c ok => [LReplyWrite c ok]
-  | OErrCb => map LErrCb (seq 0 n)
+  | OErrCb | ODefLog => map LErrCb (seq 0 n) ++ map LServeErrCb (seq 0 n)
   | OCloseCb c _ => [LCloseCb c; LDropCb c]
   | OSdCall => [LSdCall]
   | OSdReturn _ => [LSdReturn; LSdTimeout; LSdBegin]
@@ -143,6 +145,7 @@ Definition parse_event (v : val) : option event :=
       else if code =? 14 then Some (EObs OCancel)
       else if code =? 15 then Some (EClientRecv cn (Z.to_nat a))
       else if code =? 16 then Some (EClientClosed cn)
+      else if code =? 17 then Some (EObs ODefLog)
       else None
   | _ => None
   end.
@@ -164,7 +167,7 @@ Definition summary (s : state) : val :=
 Definition autonomous_cands (s : state) : list label :=
   [LServeCb; LServeReturn EClosed]
   ++ flat_map (fun c =>
-       [LAcceptCb c (count s + 1) true; LRejectClose c; LDropClose c; LDropCb c; LConnExit c; LErrCb c; LCloseCb c;
+       [LAcceptCb c (count s + 1) true; LRejectClose c; LDropClose c; LDropCb c; LConnExit c; LErrCb c; LServeErrCb c; LCloseCb c;
         LHandlerEnd c true; LReplyWrite c true]
        ++ match LifecycleModel.get s c with
           | Some x => if sock x then [] else [LConnRead c RErr; LReplyWrite c false]
@@ -378,6 +381,20 @@ Fixpoint owed_ok (c : nat) (l : list event) (pending : bool) (closed : bool) : b
   | _ :: t => owed_ok c t pending closed
   end.
 
+(* Shutdown returned from a pass that found everything idle: nil, or the error of closing a listener
+   that an earlier call (or a cancel) had closed already *)
+Definition ev_sd_graceful (o : obs) := match o with OSdReturn ENil | OSdReturn EOther => true | _ => false end.
+(* at EVERY such return (not only the first): each connection Accept had returned by then is closed, or
+   was not tracked yet and is never served afterwards *)
+Fixpoint graceful_returns_ok (ids : list nat) (all : list event) (pre rest : list event) : bool :=
+  match rest with
+  | [] => true
+  | e :: t =>
+      (if is_obs ev_sd_graceful e
+       then forallb (fun c => negb (any (ev_accept c) pre) || any (ev_close c) pre || negb (any (ev_read c) all)) ids
+       else true) && graceful_returns_ok ids all (pre ++ [e]) t
+  end.
+
 Fixpoint split_at_sd_nil (pre : list event) (l : list event) : option (list event * list event) :=
   match l with
   | [] => None
@@ -424,16 +441,12 @@ Definition verdict_lifecycle_C17 (a : list val) (o : val) : N :=
             (* serve's return after cancel / shutdown *)
             if (any ev_cancel l || any ev_sd_nil l) && negb (any ev_serve_closed l && (inbound =? 1)) then VIOLATES
             else
+            (* graceful shutdown, for every graceful return of Shutdown *)
+            if negb (graceful_returns_ok ids l [] l) then VIOLATES
+            else if any ev_sd_graceful l && negb (forallb (fun c => owed_ok c l false false) ids) then VIOLATES
+            else
             match split_at_sd_nil [] l with
-            | Some (pre, post) =>
-                (* graceful shutdown *)
-                if any ev_any_accept post || (refused =? 0) then VIOLATES
-                else if negb (forallb (fun c => owed_ok c l false false) ids) then VIOLATES
-                (* a connection that Accept had returned but that was not closed when Shutdown returned (it was
-                   not tracked yet) is not served afterwards; it is closed (checked above) *)
-                else if negb (forallb (fun c => negb (any (ev_accept c) pre) || any (ev_close c) pre || negb (any (ev_read c) l)) ids)
-                     then VIOLATES
-                else HOLDS
+            | Some (pre, post) => if any ev_any_accept post || (refused =? 0) then VIOLATES else HOLDS
             | None => HOLDS
             end
       end
